@@ -8,6 +8,7 @@ over an arbitrary group `G` acting on an arbitrary additive group `V`.
 -/
 import MagpyVerif.Lemmas.RelPose
 import MagpyVerif.Lemmas.Setters
+import MagpyVerif.Lemmas.OctaCarrier
 namespace MagpyVerif.C10
 open MagpyVerif Gen Spec
 variable {G V : Type}
@@ -134,5 +135,94 @@ example : Uniform 2 (Node.mk (G := Int) (V := Int) ⟨[1, 2], [0, 0]⟩
   intro d hd
   simp [Node.objs] at hd
   rcases hd with rfl | rfl | rfl <;> exact ⟨rfl, rfl⟩
+
+
+/-! ### on the carrier the driver computes with (AUDIT X1)
+
+The theorems above are over an abstract `Group G`; the `path` stream compares the real code with the same model
+functions evaluated at `M3 Int` / `V3 Int` (Model/Basic.lean, `⁻¹` = transpose — not a group).  Through
+Lemmas/OctaCarrier.lean (`Oct`, the group of octahedral rotation matrices; `applyRotation_at_Oct_eq_at_M3Int`,
+`relAt_at_Oct_eq_at_M3Int`) they hold for the driver's evaluation whenever all rotation matrices involved are
+octahedral (`IsOct`: orthogonal of determinant 1 — the only ones the stream sends). -/
+section driverCarrier
+
+/-- **C10(b) on the driver's carrier**: `rotate` on a collection, evaluated with the integer matrix operations —
+every descendant keeps its pose relative to the collection (`relAt` computed with `⁻¹` = transpose). -/
+theorem rotate_relative_pose_invariant_on_driver_carrier (o : ObjZ) (cs : List (Node (M3 Int) (V3 Int)))
+    (N : Nat) (hN : 1 ≤ N) (hU : Uniform N (Node.mk o cs)) (rot : PathIn (M3 Int))
+    (anchor : Option (PathIn (V3 Int))) (start : Option Int) (hr : rot.WF) (ha : ∀ a, anchor = some a → a.WF)
+    (hro : rot.RotsOct) (hto : ∀ d ∈ (Node.mk o cs).objs, d.RotsOct) :
+    let w := rotWindow rot anchor N start
+    let ds := (cs.map Node.objs).flatten
+    ((Node.mk o cs).rotate rot anchor start none).objs =
+      applyRotation rot anchor start none o :: ds.map (applyRotation rot anchor start (some o.pos)) ∧
+    (∀ d ∈ ds, ∀ i,
+      relAt (applyRotation rot anchor start none o) (applyRotation rot anchor start (some o.pos) d) i =
+        if i < w.newLen then relAt o d (min (i - w.b) (N - 1)) else none) ∧
+    Uniform w.newLen ((Node.mk o cs).rotate rot anchor start none) ∧ 1 ≤ w.newLen := by
+  intro w ds
+  have ho : o.pos.length = N ∧ o.ori.length = N := hU o (by simp [Node.objs])
+  have hmem : ∀ d ∈ ds, d ∈ (Node.mk o cs).objs := by
+    intro d hd
+    simp only [Node.objs, List.mem_cons]; exact Or.inr hd
+  have hds : ∀ d ∈ ds, d.pos.length = N ∧ d.ori.length = N := fun d hd => hU d (hmem d hd)
+  refine ⟨Node.rotate_objs_none rot anchor start o cs, ?_, ?_, window_newLen_pos _ _ _ _ hN⟩
+  · intro d hd i
+    exact rel_applyRotation_on_driver_carrier rot anchor start o d N hN ho (hds d hd) hr ha hro
+      (hto o (by simp [Node.objs])) (hto d (hmem d hd)) i
+  · intro d' hd'
+    rw [Node.rotate_objs_none] at hd'
+    rcases List.mem_cons.mp hd' with rfl | hmem'
+    · exact length_applyRotation rot anchor start none o N hN ho hr ha
+    · obtain ⟨d, hd, rfl⟩ := List.mem_map.mp hmem'
+      exact length_applyRotation rot anchor start (some o.pos) d N hN (hds d hd) hr ha
+
+/-- **C10(a) on the driver's carrier**: `move` on a collection, evaluated with the integer matrix operations -/
+theorem move_relative_pose_invariant_on_driver_carrier (o : ObjZ) (cs : List (Node (M3 Int) (V3 Int)))
+    (N : Nat) (hN : 1 ≤ N) (hU : Uniform N (Node.mk o cs)) (inp : PathIn (V3 Int)) (start : Option Int)
+    (hto : ∀ d ∈ (Node.mk o cs).objs, d.RotsOct) :
+    let w := window inp.isScalar N inp.lenip start
+    ((Node.mk o cs).move inp start).objs = (Node.mk o cs).objs.map (applyMove inp start) ∧
+    (∀ d ∈ (Node.mk o cs).objs, ∀ i,
+      relAt (applyMove inp start o) (applyMove inp start d) i =
+        if i < w.newLen then relAt o d (min (i - w.b) (N - 1)) else none) ∧
+    Uniform w.newLen ((Node.mk o cs).move inp start) ∧ 1 ≤ w.newLen := by
+  intro w
+  have ho : o.pos.length = N ∧ o.ori.length = N := hU o (by simp [Node.objs])
+  refine ⟨Node.move_objs inp start _, ?_, ?_, window_newLen_pos _ _ _ _ hN⟩
+  · intro d hd i
+    exact rel_applyMove_on_driver_carrier inp start o d N hN ho (hU d hd) (hto o (by simp [Node.objs]))
+      (hto d hd) i
+  · intro d' hd'
+    rw [Node.move_objs] at hd'
+    obtain ⟨d, hd, rfl⟩ := List.mem_map.mp hd'
+    exact length_applyMove inp start d N hN (hU d hd)
+
+-- non-vacuity, driver-style data: a collection with a 2-step path (turned by 90° about z at its second step) and
+-- one child (turned by 90° about x), rotated by a further 90° about z about an integer anchor: all hypotheses hold
+open Level2.DriverExample in
+example :
+    let t : Node (M3 Int) (V3 Int) :=
+      .mk ⟨[⟨1, 0, 0⟩, ⟨2, 0, 0⟩], [1, rotZ90]⟩ [.mk ⟨[⟨5, 0, 1⟩, ⟨6, 0, 1⟩], [rotX90, rotX90]⟩ []]
+    Uniform 2 t ∧ (PathIn.scalar rotZ90).WF ∧ (PathIn.scalar rotZ90).RotsOct ∧ (∀ d ∈ t.objs, d.RotsOct) := by
+  refine ⟨?_, trivial, ?_, ?_⟩
+  · intro d hd
+    simp [Node.objs] at hd
+    rcases hd with rfl | rfl <;> exact ⟨rfl, rfl⟩
+  · simp only [PathIn.RotsOct, PathIn.toList, List.mem_singleton, forall_eq]; decide
+  · intro d hd
+    simp [Node.objs] at hd
+    rcases hd with rfl | rfl <;>
+      (simp only [Obj.RotsOct, List.mem_cons, List.not_mem_nil, or_false, forall_eq_or_imp, forall_eq]; decide)
+-- … and one relative pose evaluated as the driver evaluates it, before and after the rotation (scalar input: the
+-- whole path is rotated, the relative pose of the child at path index 1 is unchanged)
+open Level2.DriverExample in
+example :
+    let o : ObjZ := ⟨[⟨1, 0, 0⟩, ⟨2, 0, 0⟩], [1, rotZ90]⟩
+    let d : ObjZ := ⟨[⟨5, 0, 1⟩, ⟨6, 0, 1⟩], [rotX90, rotX90]⟩
+    relAt (applyRotation (.scalar rotZ90) (some (.scalar ⟨0, 3, 0⟩)) none none o)
+        (applyRotation (.scalar rotZ90) (some (.scalar ⟨0, 3, 0⟩)) none (some o.pos) d) 1 = relAt o d 1 ∧
+    relAt o d 1 = some (⟨0, -4, 1⟩, ⟨⟨0, 1, 0⟩, ⟨-1, 0, 0⟩, ⟨0, 0, 1⟩⟩ * rotX90) := by decide
+end driverCarrier
 
 end MagpyVerif.C10
